@@ -195,7 +195,7 @@ def run(chk):
         chk.violation("implementation does not build: " + err[-1500:], ["build-error"], nofail=True)
         return
     rng = random.Random(chk.seed)
-    ncases = 1500 if chk.tier == "quick" else 40000
+    ncases = 6000 if chk.tier == "quick" else 40000
     cases = list(exhaustive_cases(400 if chk.tier == "quick" else 10**6))
     for i in range(ncases):
         big = (i % 50 == 0)
@@ -204,18 +204,20 @@ def run(chk):
             cases.append(dup_case(rng))
     stats = __import__("collections").Counter()
     for name, _, start, conv in HARNESSES:
-        # the tracker sees every case; Flow and the legacy follower (real packets, slower) a third in the quick tier
-        step = 1 if name == "c06_tracker" or chk.tier == "thorough" else 3
+        # the tracker sees every case; Flow and the legacy follower (real packets, slower) every second one
+        step = 1 if name == "c06_tracker" else 2
         ops = []
         for c in cases[::step]:
             ops += conv(rng, c)
         stats += corr.correspond(chk, AREA, exes[name], ops, case_start=start, classify=classify, sig_of=sig_of)
     if chk.tier == "thorough":
-        for c in range(4):
-            big = [gen_case(rng, 65535, 400) for _ in range(40)]
+        # streams up to 64 KiB with up to 400 segments (the oracle slices the stream per buffered chunk per
+        # operation, so these are few: about 30 s of oracle time for each stream above 32 KiB)
+        for c in range(2):
+            big = [gen_case(rng, 65535, 400) for _ in range(10)]
             for name, _, start, conv in HARNESSES:
                 ops = []
-                for cs in (big if name == "c06_tracker" else big[:10]):
+                for cs in (big if name == "c06_tracker" else big[:4]):
                     ops += conv(rng, cs)
                 stats += corr.correspond(chk, AREA, exes[name], ops, case_start=start, classify=classify, sig_of=sig_of)
     for p in problems:
